@@ -120,7 +120,7 @@ fn main() {
             let mut rules: std::collections::BTreeMap<String, u64> = Default::default();
             let mut sim_ns: u128 = 0;
             for r in start..start + runs {
-                let o = run::execute(prop, tier, Choices::search(run_seed(seed, prop, r)), trace);
+                let o = run::execute(prop, tier, Choices::search_run(run_seed(seed, prop, r), r), trace);
                 shapes.insert(o.stats.shape);
                 sim_ns += o.sim_ns as u128;
                 for (k, v) in &o.stats.faults {
